@@ -194,14 +194,17 @@ def sectForms (p : Pep) : List Pep :=
 
 /-- raw digestion products of one protein: stretches between boundaries with ≤ misc sites
 between, plus the Met-removed twin of those starting the protein (unless `nf`);
-`dropLast` drops the products that reach the end of a protein not closed by a stop. -/
+`dropOpenEnd` drops the products that reach the end of a protein not closed by a stop —
+unless that end is itself a cleavage site of the rule as decided on the protein alone (a rule
+without look-ahead cuts behind its residue whatever follows, so the product is complete). -/
 def rawProducts (c : CleaveCfg) (prot : Pep) (nf : Bool) (dropOpenEnd : Bool) : List Pep :=
-  let bs := bounds (cleaveSites c.rule c.exc prot) prot.length
+  let sites := cleaveSites c.rule c.exc prot
+  let bs := bounds sites prot.length
   (List.range (bs.length - 1)).flatMap fun st =>
     (List.range (min (c.misc + 1) (bs.length - (st + 1)))).flatMap fun k =>
       let a := bs.getD st 0
       let b := bs.getD (st + 1 + k) 0
-      if dropOpenEnd && b == prot.length then []
+      if dropOpenEnd && b == prot.length && !sites.contains prot.length then []
       else
         let p := slice prot a b
         (if st == 0 && !nf && p.head? == some 'M' then [p.drop 1] else []) ++ [p]
